@@ -3,7 +3,9 @@ package main
 import (
 	"bytes"
 	"fmt"
+	"runtime"
 	"strings"
+	"sync"
 
 	jwt "github.com/nats-io/jwt/v2"
 	v1 "github.com/nats-io/jwt/v2/v1compat"
@@ -90,8 +92,11 @@ func runC15(c *Ctx) {
 		w.add("(CRParseJWT "+coqStr(contents)+" "+coqStr(got)+")", map[string]interface{}{"contents": contents, "op": "ParseDecoratedJWT"})
 		return got
 	}
+	// user tokens whose own text spells the words the file format is made of (SEED, USER, NKEY, NATS, JWT, END: only a
+	// signature can spell them - found by signing, on all cores)
+	marked := tokensSpelling(kr.by["account"], kr.by["user"].pub, []string{"SEED", "USER", "NKEY", "NATS", "JWT", "END"}, 1500000)
 	// user tokens of varying length and alphabet, user seeds
-	for i := 0; i < nUsers; i++ {
+	for i := 0; i < nUsers+len(marked); i++ {
 		ukp, _ := nkeys.CreateUser()
 		useed, _ := ukp.Seed()
 		upub, _ := ukp.PublicKey()
@@ -126,6 +131,10 @@ func runC15(c *Ctx) {
 				tok = ft.Token
 				c.count("user_token_spelled_by_another_implementation")
 			}
+		}
+		if i >= nUsers {
+			tok = marked[i-nUsers]
+			c.count("user_token_spelling_a_word_of_the_format")
 		}
 		c.sum.Evaluations++
 		c.sum.ImplChecks++
@@ -331,4 +340,63 @@ func runC15(c *Ctx) {
 	w.flush()
 	c.sum.DistinctNontriv = len(distinct)
 	c.sum.Rule = fmt.Sprintf("%d user tokens (short to ~3 KB, every base64url character class) with fresh user seeds: FormatUserConfig, then ParseDecoratedJWT / ParseDecoratedNKey / ParseDecoratedUserNKey on LF, CRLF, leading-blank, leading-space, truncated and trailing-blank renderings, key pair compared by seed and public key; DecorateJWT of every kind and parse back; bare tokens; seeds of five roles with blank padding through DecorateSeed, FormatUserConfig and both key parsers; %d adversarial texts (dash runs, CR/LF mixes, three blocks) through the real regexp versus the model matcher in Coq; non-trivial = distinct (rendering, token length class) / (role, padding) / kind", nUsers, nAdv)
+}
+
+// tokensSpelling signs user claims (differing in their name only) until, for each word, one token's text contains it,
+// or the budget of signatures is spent; the work is spread over all cores
+func tokensSpelling(s *signer, userPub string, words []string, budget int) []string {
+	uc := jwt.NewUserClaims(userPub)
+	uc.Name = "NAME-PLACEHOLDER"
+	base, err := uc.Encode(s.kp)
+	if err != nil {
+		panic(err)
+	}
+	raw, _ := b64.DecodeString(strings.Split(base, ".")[1])
+	parts := strings.SplitN(string(raw), "NAME-PLACEHOLDER", 2)
+	h := b64.EncodeToString([]byte(hdrV2))
+	workers := runtime.NumCPU()
+	var mu sync.Mutex
+	found := map[string]string{}
+	var wg sync.WaitGroup
+	for wk := 0; wk < workers; wk++ {
+		wg.Add(1)
+		go func(wk int) {
+			defer wg.Done()
+			for n := wk; n < budget; n += workers {
+				if n%(workers*4096) == wk {
+					mu.Lock()
+					done := len(found) == len(words)
+					mu.Unlock()
+					if done {
+						return
+					}
+				}
+				text := h + "." + b64.EncodeToString([]byte(parts[0]+fmt.Sprintf("user %d", n)+parts[1]))
+				sig, err := s.kp.Sign([]byte(text))
+				if err != nil {
+					return
+				}
+				es := b64.EncodeToString(sig)
+				for _, w := range words {
+					if strings.Contains(es, w) {
+						mu.Lock()
+						if _, have := found[w]; !have {
+							found[w] = text + "." + es
+						}
+						mu.Unlock()
+					}
+				}
+			}
+		}(wk)
+	}
+	wg.Wait()
+	var out []string
+	for _, w := range words {
+		if t, ok := found[w]; ok {
+			if d, err := jwt.DecodeUserClaims(t); err == nil && d != nil {
+				out = append(out, t)
+			}
+		}
+	}
+	return out
 }
